@@ -154,10 +154,19 @@ func (fx *FnExec) staticCall(st *State, fn *ssa.Function, args, bindings []*Term
 		if !hasLoop(fn) && fx.depth < 6 && len(fn.Blocks) <= 40 {
 			return fx.inline(st, fn, nil, args, bindings, p)
 		}
-		fx.fail("callee %s needs a contract (has loops or is too large to inline)", full)
+		return fx.opaqueCall(st, fn.Signature, full)
 	}
-	// external, no contract: results unconstrained, /repo heap framed (A3)
-	fx.trusted("external " + full + ": result unconstrained, no effect on /repo objects (A3)")
+	// external, no contract: if it receives references it may change what they reach
+	for i := 0; i < fn.Signature.Params().Len(); i++ {
+		switch fn.Signature.Params().At(i).Type().Underlying().(type) {
+		case *types.Pointer, *types.Slice, *types.Map, *types.Interface, *types.Signature:
+			return fx.opaqueCall(st, fn.Signature, full)
+		}
+	}
+	if fn.Signature.Recv() != nil {
+		return fx.opaqueCall(st, fn.Signature, full)
+	}
+	fx.trusted("external " + full + " (scalar/string arguments only): result unconstrained, no heap effect (A3)")
 	var res []*Term
 	sig := fn.Signature
 	for i := 0; i < sig.Results().Len(); i++ {
@@ -338,39 +347,40 @@ func (fx *FnExec) havocAssigns(st *State, envPre *SpecEnv, assigns []*Clause, fn
 // ---------------------------------------------------------------------------
 // interface method calls
 
-func (fx *FnExec) invoke(st *State, cc *ssa.CallCommon, recv *Term, args []*Term, p token.Pos) []*Term {
-	fx.oblig(st, "nil-deref", "invoke", p, Neq(IfcTag(recv), IntLit(0)))
+func ifaceKey(cc *ssa.CallCommon) string {
 	it := cc.Value.Type()
-	key := ""
 	if n, ok := it.(*types.Named); ok && n.Obj().Pkg() != nil {
-		key = n.Obj().Pkg().Path() + "." + n.Obj().Name() + "." + cc.Method.Name()
+		return n.Obj().Pkg().Path() + "." + n.Obj().Name() + "." + cc.Method.Name()
 	} else if n, ok := it.(*types.Named); ok {
-		key = n.Obj().Name() + "." + cc.Method.Name() // error.Error
+		return n.Obj().Name() + "." + cc.Method.Name() // error.Error
 	}
-	sig := cc.Signature()
-	if con := fx.e.icons[key]; con != nil {
-		return fx.applyIfaceContract(st, con, cc, recv, args, p)
+	return "?." + cc.Method.Name()
+}
+
+func (fx *FnExec) ifaceContract(cc *ssa.CallCommon) *Contract {
+	if con := fx.e.icons[ifaceKey(cc)]; con != nil {
+		return con
 	}
-	// also search embedded interfaces' declaring type
+	// method declared in an embedded interface
 	if m := cc.Method; m != nil && m.Pkg() != nil {
 		if recvT := m.Type().(*types.Signature).Recv(); recvT != nil {
 			if n, ok := recvT.Type().(*types.Named); ok {
 				k2 := n.Obj().Pkg().Path() + "." + n.Obj().Name() + "." + m.Name()
 				if con := fx.e.icons[k2]; con != nil {
-					return fx.applyIfaceContract(st, con, cc, recv, args, p)
+					return con
 				}
 			}
 		}
 	}
-	fx.trusted("dynamic call " + key + ": result unconstrained, heap of /repo objects unchanged")
-	var res []*Term
-	for i := 0; i < sig.Results().Len(); i++ {
-		rt := sig.Results().At(i).Type()
-		v := fx.c.Fresh("dyn_"+cc.Method.Name(), fx.e.sortOf(rt))
-		fx.assumeType(st, v, rt)
-		res = append(res, v)
+	return nil
+}
+
+func (fx *FnExec) invoke(st *State, cc *ssa.CallCommon, recv *Term, args []*Term, p token.Pos) []*Term {
+	fx.oblig(st, "nil-deref", "invoke", p, Neq(IfcTag(recv), IntLit(0)))
+	if con := fx.ifaceContract(cc); con != nil {
+		return fx.applyIfaceContract(st, con, cc, recv, args, p)
 	}
-	return res
+	return fx.opaqueCall(st, cc.Signature(), "dynamic "+ifaceKey(cc))
 }
 
 func (fx *FnExec) applyIfaceContract(st *State, con *Contract, cc *ssa.CallCommon, recv *Term, args []*Term, p token.Pos) []*Term {
@@ -859,6 +869,9 @@ func (fx *FnExec) doNext(st *State, x *ssa.Next) {
 
 // heapUnchanged: every heap component present in either state is equal.
 func (fx *FnExec) heapUnchanged(old, cur *State) *Term {
+	if old.epoch != cur.epoch {
+		return False
+	}
 	names := map[string]Sort{}
 	for k, v := range cur.heap {
 		names[k] = v.S
@@ -891,7 +904,14 @@ func (fx *FnExec) callMods(ci ssa.CallInstruction, ms *modSet) {
 	cc := ci.Common()
 	ms.heaps["alloc"] = SInt
 	if cc.IsInvoke() {
-		return // interface contracts: assigns handled below when present
+		if con := fx.ifaceContract(cc); con != nil {
+			if len(con.Common.Assigns) > 0 {
+				ms.opaque = true // conservatively
+			}
+			return
+		}
+		ms.opaque = true
+		return
 	}
 	switch callee := cc.Value.(type) {
 	case *ssa.Builtin:
@@ -921,7 +941,35 @@ func (fx *FnExec) callMods(ci ssa.CallInstruction, ms *modSet) {
 	}
 }
 
+// wouldBeOpaque mirrors staticCall's treatment of callees without a contract.
+func (fx *FnExec) wouldBeOpaque(fn *ssa.Function) bool {
+	if con := fx.e.cons[fn]; con != nil {
+		return false
+	}
+	switch fn.String() {
+	case "github.com/pkg/errors.Errorf", "github.com/pkg/errors.New", "errors.New", "fmt.Errorf", "github.com/pkg/errors.WithStack", "github.com/pkg/errors.Wrapf", "github.com/pkg/errors.Wrap", "fmt.Sprintf", "fmt.Sprint", "fmt.Sprintln":
+		return false
+	}
+	if fn.Blocks == nil {
+		return true
+	}
+	if fx.inRepo(fn) || fn.Synthetic != "" {
+		return hasLoop(fn) || len(fn.Blocks) > 40
+	}
+	for i := 0; i < fn.Signature.Params().Len(); i++ {
+		switch fn.Signature.Params().At(i).Type().Underlying().(type) {
+		case *types.Pointer, *types.Slice, *types.Map, *types.Interface, *types.Signature:
+			return true
+		}
+	}
+	return fn.Signature.Recv() != nil
+}
+
 func (fx *FnExec) funcMods(fn *ssa.Function, ms *modSet, depth int) {
+	if fx.wouldBeOpaque(fn) {
+		ms.opaque = true
+		return
+	}
 	if con := fx.e.cons[fn]; con != nil && !con.Inline {
 		env := &SpecEnv{fx: fx, pkg: con.Pkg, vars: map[string]specVal{}, st: fx.entry, where: "assigns of " + fn.Name()}
 		for _, p := range fn.Params {
@@ -962,6 +1010,9 @@ func (fx *FnExec) funcMods(fn *ssa.Function, ms *modSet, depth int) {
 			case ssa.CallInstruction:
 				cc := x.Common()
 				if cc.IsInvoke() {
+					if fx.ifaceContract(cc) == nil {
+						ms.opaque = true
+					}
 					continue
 				}
 				switch callee := cc.Value.(type) {
@@ -979,4 +1030,165 @@ func (fx *FnExec) funcMods(fn *ssa.Function, ms *modSet, depth int) {
 			}
 		}
 	}
+}
+
+// ---------------------------------------------------------------------------
+// opaque calls and private (unescaped) objects
+
+// privateAllocs: heap allocations of this function whose address never leaves
+// the function except as an argument of calls that have a contract.
+func (fx *FnExec) privateAllocs() map[*ssa.Alloc]bool {
+	out := map[*ssa.Alloc]bool{}
+	for _, b := range fx.fn.Blocks {
+		for _, ins := range b.Instrs {
+			a, ok := ins.(*ssa.Alloc)
+			if !ok || !a.Heap {
+				continue
+			}
+			if _, isS := a.Type().(*types.Pointer).Elem().Underlying().(*types.Struct); !isS {
+				continue
+			}
+			if !fx.escapes(a) {
+				out[a] = true
+			}
+		}
+	}
+	return out
+}
+
+func (fx *FnExec) escapes(a *ssa.Alloc) bool {
+	aliases := map[ssa.Value]bool{a: true}
+	cells := map[*ssa.Alloc]bool{}
+	for changed := true; changed; {
+		changed = false
+		for _, b := range fx.fn.Blocks {
+			for _, ins := range b.Instrs {
+				switch x := ins.(type) {
+				case *ssa.Store:
+					if aliases[x.Val] {
+						if c, ok := x.Addr.(*ssa.Alloc); ok && !c.Heap {
+							if !cells[c] {
+								cells[c] = true
+								changed = true
+							}
+						}
+					}
+				case *ssa.UnOp:
+					if x.Op == token.MUL {
+						if c, ok := x.X.(*ssa.Alloc); ok && cells[c] && !aliases[x] {
+							aliases[x] = true
+							changed = true
+						}
+					}
+				}
+			}
+		}
+	}
+	for v := range aliases {
+		refs := v.Referrers()
+		if refs == nil {
+			return true
+		}
+		for _, r := range *refs {
+			switch x := r.(type) {
+			case *ssa.FieldAddr:
+				if x.X != v {
+					return true
+				}
+				// address of a field taken: conservative unless only used for load/store
+				if fr := x.Referrers(); fr != nil {
+					for _, u := range *fr {
+						switch y := u.(type) {
+						case *ssa.Store:
+							if y.Addr != x {
+								return true
+							}
+						case *ssa.UnOp:
+						case *ssa.DebugRef:
+						default:
+							return true
+						}
+					}
+				}
+			case *ssa.Store:
+				if x.Val == v {
+					c, ok := x.Addr.(*ssa.Alloc)
+					if !ok || c.Heap || !cells[c] {
+						return true
+					}
+				}
+			case *ssa.UnOp, *ssa.DebugRef:
+			case ssa.CallInstruction:
+				cc := x.Common()
+				if cc.IsInvoke() {
+					return true
+				}
+				callee, ok := cc.Value.(*ssa.Function)
+				if !ok {
+					return true
+				}
+				if con := fx.e.cons[callee]; con == nil || con.Inline {
+					return true
+				}
+			case *ssa.BinOp: // comparison with nil
+			default:
+				return true
+			}
+		}
+	}
+	return false
+}
+
+// opaqueCall: nothing is known about the callee: every heap location may
+// change except objects private to this activation; results are unconstrained.
+func (fx *FnExec) opaqueCall(st *State, sig *types.Signature, name string) []*Term {
+	fx.trusted("opaque call " + name + ": unconstrained results and heap effects; assumed to return normally")
+	fx.havocHeap(st)
+	var res []*Term
+	for i := 0; i < sig.Results().Len(); i++ {
+		rt := sig.Results().At(i).Type()
+		v := fx.c.Fresh("oq_res", fx.e.sortOf(rt))
+		fx.assumeType(st, v, rt)
+		res = append(res, v)
+	}
+	return res
+}
+
+// havocHeap starts a new heap epoch: every component is unknown afterwards,
+// except at the objects private to the active (inlined) activations.
+func (fx *FnExec) havocHeap(st *State) {
+	var privs []*Term
+	for f := fx; f != nil; f = f.parent {
+		for _, r := range f.privRefs {
+			privs = append(privs, r)
+		}
+	}
+	sort.Slice(privs, func(i, j int) bool { return privs[i].String() < privs[j].String() })
+	fx.c.nfresh++
+	epoch := fmt.Sprintf("e%d", fx.c.nfresh)
+	var names []string
+	for k := range st.heap {
+		names = append(names, k)
+	}
+	sort.Strings(names)
+	oldA := fx.heapGet(st, "alloc", SInt)
+	for _, k := range names {
+		if k == "alloc" {
+			continue
+		}
+		old := st.heap[k]
+		if len(privs) == 0 || !strings.HasPrefix(string(old.S), "(Array Int ") {
+			delete(st.heap, k)
+			continue
+		}
+		nv := fx.c.Const("H"+epoch+"_"+k, old.S)
+		for _, p := range privs {
+			nv = Store(nv, p, Select(old, p))
+		}
+		st.heap[k] = fx.c.Name("oqp_"+k, nv)
+	}
+	st.epoch = epoch
+	newA := fx.c.Fresh("alloc", SInt)
+	st.heap["alloc"] = newA
+	fx.c.Assume(Implies(st.guard, Ge(newA, oldA)))
 }
